@@ -117,7 +117,7 @@ def write_evidence(pid, tier, seed, m, sel, violations, samples, wall, undecided
     if undecided:
         cov["undecided"] = undecided
     ev = {"property_id": pid, "tier": tier, "seed": seed, "level": "proof", "coverage": cov,
-          "assumptions": ASSUMPTIONS, "wall_s": round(wall, 2), "violations": len(violations)}
+          "assumptions": ASSUMPTIONS + PROP_ASSUMPTIONS.get(pid, []), "wall_s": round(wall, 2), "violations": len(violations)}
     json.dump(ev, open(os.path.join(evdir, pid + ".json"), "w"), indent=1)
     return ev
 
@@ -128,10 +128,26 @@ ASSUMPTIONS = [
     "the priority type's Ord is a total order (ord_laws) and Hash/Eq of items are consistent (axiom_eqv_*): the hypotheses of the properties, as requires clauses / axioms",
     "usize is 64 bits; a Vec of 8-byte elements has at most 2^60-1 entries (axiom_vec_*_len)",
     "#[derive(PartialEq, PartialOrd)] on Index/Position is field-wise (PartialEqSpecImpl / PartialOrdSpecImpl)",
-    "the declared rewrites R1-R16 of tools/gen.py preserve behaviour (validated by compiling the rewritten crate against the test suite in the thorough tier)",
+    "the declared rewrites R0-R19 of tools/gen.py preserve behaviour (validated by compiling the rewritten crate against the test suite in the thorough tier)",
     "user closures and iterators terminate; termination of loops over user iterators is not proved",
     "trait-impl methods are verified as inherent methods of the same body (dynamic dispatch through std traits not modelled)",
 ]
+
+
+PROP_ASSUMPTIONS = {
+    "C05": ["comparison counts are a generated static derivation over the syntax tree (tools/cost.py), not a Verus proof; the sum of sift heights in heap_build being O(n) (Floyd) is assumed"],
+    "C08": ["Store::retain (one-line FnMut adapter) has an assumed contract; IterMut2 / blind retain2 stub contracts (audited at run time in the thorough tier)"],
+    "C09": ["the raw-pointer reborrow in IterMut::next (rewrite R6, __launder) is trusted to be the identity on the two references"],
+    "C10": ["Verus has no unwinding semantics: 'the tables are consistent whenever user code can panic' => 'safe after a caught panic' is a meta-argument",
+            "panics of the user's Hash / Eq inside IndexMap's own lookups and insertions are left to indexmap / hashbrown (they probe before they mutate)",
+            "double drops / leaks are not expressible; ownership is rustc's"],
+    "C13": ["std's iterator adaptors over these iterators are trusted; overrides of std defaults are only under contract where the overlay has an (optional) record for them"],
+    "C14": ["#[derive(Clone)] clones field-wise and the fields own their data (structural audit, tools/audit.py); reflexivity / symmetry / transitivity are those of IndexMap's map equality"],
+    "C15": ["serde's driver (Deserializer::deserialize_seq -> Visitor::visit_seq) and the data formats are outside the verifier's reach; Store::deserialize has an assumed contract"],
+    "C16": ["IndexMap::drain leaves the map empty however the iterator is consumed or leaked (stub contract, audited at run time)"],
+    "C17": ["allocation failure is modelled only through the Result of try_reserve*; capacity() of the IndexMap is an uninterpreted function constrained by the stub's reserve contracts"],
+    "C18": ["the IndexMap stub's contracts do not mention the hasher: IndexMap's behaviour under degenerate or keyed hashers is indexmap's"],
+}
 
 
 def report(pid, tier, seed, m, sel, res, findings, cmd, t0, outdir):
@@ -215,6 +231,7 @@ def report(pid, tier, seed, m, sel, res, findings, cmd, t0, outdir):
         "thorough_detection_selftest": sel.get("selftest"),
         "thorough_indexmap_stub_audit": sel.get("stub_audit"),
         "thorough_history_search_on_real_code": sel.get("history_search"),
+        "thorough_miri_bounded": sel.get("miri"),
         "generated_cost_obligations": [{"id": o["id"], "declared": o["declared"], "derived": o["derived"]} for o in sel.get("extra_obligations", [])][:80],
         "other_properties_failing_in_shared_functions": sorted(set(t for f in others for t in f["tags"])),
     }
